@@ -872,7 +872,15 @@ pub fn gen_op(m: &Model, p: &Profile, seed: &OpSeed) -> Option<Op> {
                 match s.pick(6) {
                     0..=3 => format!("OPER {} {}", n, pw),
                     4 => format!("OPER {} wrong{}", n, pw),
-                    _ => format!("OPER x{} {}", n, pw),
+                    _ => {
+                        if s.chance(50) {
+                            format!("OPER x{} {}", n, pw)
+                        } else {
+                            // the configured name in another letter case is another name
+                            let flipped: String = n.chars().map(|c| if c.is_ascii_lowercase() { c.to_ascii_uppercase() } else { c.to_ascii_lowercase() }).collect();
+                            format!("OPER {} {}", flipped, pw)
+                        }
+                    }
                 }
             }
         }
